@@ -1,5 +1,5 @@
 """Driver for the L2 specs (Counter.tla, Once.tla, Note.tla): ideal-lock harness h_l2, same pipeline as mulib."""
-import os, shutil, json
+import os, shutil, json, re
 from common import *
 import muconf, mulib
 
@@ -184,5 +184,41 @@ def generated_notes(run, prop, wanted_or):
                     run.violation("%s|%s|generated note program %d (%s)" % (v[0], v[1], base + i, hn), v[4], v[5])
                 else:
                     run.note("oracle of another property fired in generated note program %d: %s %s: %s" % (base + i, v[0], v[1], v[5][:160]))
+    # code -> spec: executions of the first generated programs on the ideal-lock harness are recorded and validated against NoteTrace.tla
+    ntrace = 6 if run.tier == "quick" else 40
+    os.makedirs(MC, exist_ok=True)
+    shutil.copy(os.path.join(SPEC, "NoteTrace.tla"), os.path.join(MC, "NoteTrace.tla"))
+
+    def tone(i):
+        c = genprog.gennote(base + i, prop)
+        conf = dict(notelib.note_conf(c), _c=c)
+        tr = os.path.join(WORK, "tlc", "ntrace_%s_%d.ndjson" % (prop, i))
+        os.makedirs(os.path.dirname(tr), exist_ok=True)
+        init = init_line("note", conf)
+        mulib.run_harness_env(exes["h_l2"], ["random", "30", str(base + 900 + i), init, REPLAYS, tr], e)
+        nlines = sum(1 for _ in open(tr))
+        tla, cfg = write_mc("Note", "tr_%s_%d" % (prop, i), conf, notelib.consts_of(c), export=False)
+        # the same MC module, but extending the trace specification
+        txt = open(tla).read().replace("EXTENDS Note\n", "EXTENDS NoteTrace\n")
+        open(tla, "w").write(txt)
+        ctxt = open(cfg).read().replace("SPECIFICATION SpecU", "SPECIFICATION TraceSpec") + "INVARIANT TraceInv\nCONSTRAINT Progress\nPOSTCONDITION Accepted\n"
+        open(cfg, "w").write(ctxt)
+        info = tlc_plain(tla, cfg, workers=1, cwd=MC, env=dict(os.environ, TRACE=tr), timeout=900)
+        m = re.search(r'<<"matched", (\d+), "of", (\d+)>>', info["out"])
+        os.unlink(tr)
+        return i, c, nlines, int(m.group(1)) if m else 0, info
+    with cf.ThreadPoolExecutor(4) as ex:
+        for i, c, nlines, matched, info in ex.map(tone, range(ntrace)):
+            acc = info["ok"] and matched == nlines
+            run.cov.setdefault("recorded_traces", []).append({"program": "generated note program %d" % (base + i), "threads": len(c["progs"]), "executions": 30, "events": nlines,
+                                                              "matched": matched, "accepted": acc, "states": info["distinct"], "spec": "NoteTrace.tla"})
+            if acc:
+                run.add("traces_validated_against_impl", 30)
+            elif info["violated"] and info["violated"] not in ("Deadlock",):
+                run.violation("TLC|%s|recorded trace of generated note program %d" % (info["violated"], base + i), "-",
+                              "an invariant of Note.tla fails on a state of a recorded execution of the real code (matched %d of %d events): %s" % (matched, nlines, info["out"][-300:]))
+            else:
+                run.note("DIVERGENCE: recorded executions of generated note program %d are not behaviours of Note.tla (longest matched prefix %d of %d events); not a violation by itself" % (base + i, matched, nlines))
+                run.cov["conformant"] = False
     run.cov["generated_note_programs"] = {"programs": nprog, "schedules_each": nruns, "harnesses": "h_l2r (real mu.c) and h_l2 (ideal lock), alternating",
                                           "generator": "tools/genprog.py gennote (seed %d..%d, focus %s)" % (base, base + nprog - 1, prop), "violations": nv}
